@@ -916,14 +916,43 @@ func adClassifyExec(job adJob, em *emitter) {
 	r := &adRun{t: t, first: map[string][]byte{}, rx: map[int]*adRx{}}
 	r.log(obj{"e": "reset", "ad": "both", "ph": "table", "ids": []int{1}, "thr": 0, "dg": []int{}, "pk": "", "pp": 0, "pa": 0, "pb": 0, "pf": false, "purl": "", "pm": 0})
 	rng := rand.New(rand.NewSource(adSeed()))
-	parties := map[string]*adRx{}
+	// the receiver classifies from the bytes ALONE: every case is put to the same adapter in each state a receiver can be in --
+	// freshly constructed, initialised for a session, and holding a stored key share (a second key generation / a signer)
+	parties := map[string][]*adRx{}
+	states := map[string][]string{}
 	for _, ad := range []string{"ecdsa", "eddsa"} {
-		lg := &adLogger{run: r, p: 1}
-		parties[ad] = &adRx{id: 1, party: adNewParty(ad, 1, lg), lg: lg}
+		add := func(st string, prep func(p adParty) bool) {
+			lg := &adLogger{run: r, p: 1}
+			p := adNewParty(ad, 1, lg)
+			ok := false
+			r.guard(1, "classify-setup", func() { ok = prep(p) })
+			if ok {
+				parties[ad] = append(parties[ad], &adRx{id: 1, party: p, lg: lg})
+				states[ad] = append(states[ad], st)
+			}
+		}
+		nop := func([]byte, bool, uint16) {}
+		add("fresh", func(adParty) bool { return true })
+		add("init", func(p adParty) bool { p.Init([]uint16{1, 2, 3}, 1, nop); return true })
+		fixture := ""
+		if ad == "ecdsa" {
+			fixture = job.Fixture
+		}
+		if ad == "eddsa" || fixture != "" {
+			if sh, err := afShares(ad, []int{1, 2, 3}, 1, fixture); err == nil && len(sh[1]) > 0 {
+				add("share", func(p adParty) bool { return p.SetShareData(sh[1]) == nil })
+				add("share+init", func(p adParty) bool {
+					if p.SetShareData(sh[1]) != nil {
+						return false
+					}
+					p.Init([]uint16{1, 2, 3}, 1, nop)
+					return true
+				})
+			}
+		}
 	}
 	for i, c := range job.Classify {
-		rx := parties[c.Adapter]
-		if rx == nil {
+		if parties[c.Adapter] == nil {
 			fatal("classify case %d: unknown adapter %q", i, c.Adapter)
 		}
 		var data []byte
@@ -942,22 +971,25 @@ func adClassifyExec(job adJob, em *emitter) {
 				data = pbAny(c.URL, val)
 			}
 		}
-		var round uint8
-		var bc bool
-		var err error
-		done := false
-		r.guard(1, "ClassifyMsg", func() {
-			round, bc, err = rx.party.ClassifyMsg(data)
-			done = true
-		})
-		if !done {
-			continue
+		for si, rx := range parties[c.Adapter] {
+			var round uint8
+			var bc bool
+			var err error
+			done := false
+			r.guard(1, "ClassifyMsg", func() {
+				round, bc, err = rx.party.ClassifyMsg(data)
+				done = true
+			})
+			if !done {
+				continue
+			}
+			url := c.URL
+			if c.Kind == "garbage" {
+				url = ""
+			}
+			r.log(obj{"e": "tcls", "i": i, "ad": c.Adapter, "k": c.Kind, "var": c.Variant, "url": adShort(url), "r": int(round), "bc": bc, "err": err != nil,
+				"st": states[c.Adapter][si]})
 		}
-		url := c.URL
-		if c.Kind == "garbage" {
-			url = ""
-		}
-		r.log(obj{"e": "tcls", "i": i, "ad": c.Adapter, "k": c.Kind, "var": c.Variant, "url": adShort(url), "r": int(round), "bc": bc, "err": err != nil})
 	}
 	adEncodingExec(job, r)
 	r.log(obj{"e": "end", "hung": false, "setup": true, "fired": true})
